@@ -742,7 +742,7 @@ BASE_MODELS = [
     (r'str>::starts_with::<(char|&str)>$', need_str(lambda s, c: s.startswith(c))), (r'str>::ends_with::<char>$', need_str(lambda s, c: s.endswith(c))),
     (r'str>::find::<char>$', m_find_char), (r'str>::to_uppercase$', need_str(lambda s: s.upper())),
     (r'str>::to_lowercase$', need_str(lambda s: s.lower())),
-    (r'str as Index<', m_str_index),
+    (r'(str|String) as Index<', m_str_index),
     (r'<impl str>::is_empty$|String::is_empty$', lambda ex, a, c: str_len(dv(a[0])) == 0),
     (r'<impl str>::len$|String::len$', lambda ex, a, c: str_len(dv(a[0]))),
     (r'Argument::<.*>::new_\w+(::<.*>)?$', m_fmt_argument),
